@@ -506,6 +506,11 @@ func (h *harness) batchItems(n *NodeSpec, v int, vs *Visit) (any, string) {
 			descs = append(descs, "ER("+tok+"E)")
 			continue
 		}
+		if vs.Items[i].Pay == "nilitem" && n.PrepShape == "anys" {
+			vals[i] = nil // an untyped nil in the item list is an item like any other
+			descs = append(descs, "nil")
+			continue
+		}
 		vals[i] = h.reg.mkPay(itemPay(n, &vs.Items[i]), tok)
 		descs = append(descs, tok)
 	}
@@ -593,7 +598,7 @@ func (h *harness) exec(ctx context.Context, n *NodeSpec, arg any, anyStyle bool)
 			// k-th item that prep handed over as an error Result
 			k := 0
 			for ii, it := range n.visit(v).Items {
-				if it.Pay == "erritem" {
+				if it.Pay == "erritem" || (it.Pay == "nilitem" && n.PrepShape == "anys") {
 					if k == st.nilSeen {
 						item = ii
 						break
@@ -952,6 +957,21 @@ func baseOpts(n *NodeSpec, form string) []flyt.NodeOption {
 	return opts
 }
 
+// baseOptsLast: the same options with the function options first and the base
+// options after them (relative orders kept: last-setting-wins is unaffected).
+func baseOptsLast(opts []any) []any {
+	var fn, base []any
+	for _, o := range opts {
+		switch o.(type) {
+		case flyt.NodeOption, func(*flyt.BaseNode):
+			base = append(base, o)
+		default:
+			fn = append(fn, o)
+		}
+	}
+	return append(fn, base...)
+}
+
 // ctorOpts: the opt-form settings as constructor arguments of NewNode / NewBatchNode.
 func ctorOpts(n *NodeSpec) []any {
 	var out []any
@@ -1100,6 +1120,10 @@ func (h *harness) buildFunc(n *NodeSpec) flyt.Node {
 		if n.HasFb {
 			opts = append(opts, flyt.WithExecFallbackFunc(h.fbFunc(n)))
 		}
+	}
+	if n.Sibling {
+		opts = baseOptsLast(opts)
+		_ = flyt.NewNode(opts...) // an earlier node built from the same option slice
 	}
 	b := flyt.NewNode(opts...)
 	if decoyAsBuilder {
@@ -1250,6 +1274,10 @@ func (h *harness) buildBatch(n *NodeSpec) flyt.Node {
 				return h.post(n, s, p, e, false)
 			}))
 		}
+	}
+	if n.Sibling {
+		opts = baseOptsLast(opts)
+		_ = flyt.NewBatchNode(opts...) // an earlier node built from the same option slice
 	}
 	b := flyt.NewBatchNode(opts...)
 	b = b.WithPrepFunc(func(ctx context.Context, s *flyt.SharedStore) ([]flyt.Result, error) {
